@@ -2,9 +2,9 @@
 import re
 from vf import tree, core
 
-_RX_AT = re.compile(r'^At record (\d+)')
-_RX_FIELD = re.compile(r'^No "([^"]*)" field at record (\d+)')
-_RX_B = re.compile(r'at record (\d+) in "B" table')
+# wording-tolerant: the statements only require that the message names the 1-based record number (and, for a JOIN table, says so)
+_RX_REC = re.compile(r'record[^0-9\n]{0,3}(\d+)', re.IGNORECASE)
+_RX_B = re.compile(r'record[^0-9\n]{0,3}(\d+)[^\n]{0,20}(?:"B"|\bB\b|join)[^\n]{0,10}table', re.IGNORECASE)
 
 
 _CONFIRMED_TIMEOUTS = [0]      # per worker process: after three confirmed timeouts further ones are believed at once
@@ -14,15 +14,12 @@ def classify_py(e):
     eng = tree.engine()
     msg = str(e)
     if isinstance(e, eng.RbqlRuntimeError):
-        m = _RX_AT.match(msg)
-        if m:
-            return ('runtime', int(m.group(1)), msg)
-        m = _RX_FIELD.match(msg)
-        if m:
-            return ('runtime', int(m.group(2)), msg)
-        m = _RX_B.search(msg)
+        m = _RX_B.search(msg.split('Details:')[0])
         if m:
             return ('runtime_b', int(m.group(1)), msg)
+        m = _RX_REC.search(msg.split('Details:')[0])
+        if m:
+            return ('runtime', int(m.group(1)), msg)
         return ('runtime', None, msg)
     if isinstance(e, eng.RbqlParsingError):
         return ('parsing', None, msg)
@@ -38,15 +35,12 @@ def classify_js(err):
     msg = err.get('msg', '')
     name = err.get('name')
     if name == 'RbqlRuntimeError':
-        m = _RX_AT.match(msg) or re.match(r'^At record (\d+)', msg)
-        if m:
-            return ('runtime', int(m.group(1)), msg)
-        m = _RX_FIELD.match(msg)
-        if m:
-            return ('runtime', int(m.group(2)), msg)
-        m = _RX_B.search(msg)
+        m = _RX_B.search(msg.split('Details:')[0])
         if m:
             return ('runtime_b', int(m.group(1)), msg)
+        m = _RX_REC.search(msg.split('Details:')[0])
+        if m:
+            return ('runtime', int(m.group(1)), msg)
         return ('runtime', None, msg)
     if name == 'RbqlParsingError':
         return ('parsing', None, msg)
